@@ -16033,6 +16033,13 @@ impl<
 		inflight_htlcs
 	}
 
+	/// Verification hook: a copy of the events which are still waiting to be handled, i.e. what
+	/// a serialization of this `ChannelManager` right now would persist as pending.
+	#[cfg(ldk_verif)]
+	pub fn verif_pending_events(&self) -> Vec<events::Event> {
+		self.pending_events.lock().unwrap().iter().map(|(ev, _)| ev.clone()).collect()
+	}
+
 	#[cfg(any(test, feature = "_test_utils"))]
 	pub fn get_and_clear_pending_events(&self) -> Vec<events::Event> {
 		let events = core::cell::RefCell::new(Vec::new());
